@@ -70,6 +70,37 @@ def generate(prop, spec, repo, C, defs, classes, LEMMAS, mode_filter=None):
     return vcs, infos, und
 
 
+def run_mutants(prop, spec, repo, infos, C, defs, classes, LEMMAS):
+    """Thorough tier: every catalogued edit of this property (selftest/catalogue.py) is applied in memory to the source text
+    and the affected functions are re-verified; an edit is killed when some obligation is no longer discharged."""
+    from selftest import catalogue
+    out = []
+    for mu in [x for x in catalogue.M if x['prop'] == prop]:
+        src = repo.src[mu['module']]
+        if src.count(mu['old']) < 1:
+            out.append(dict(mu, status='not-applicable (text not present in current source)')); continue
+        try:
+            rm = source.Repo(overrides={mu['module']: src.replace(mu['old'], mu['new'], 1)})
+        except SyntaxError as e:
+            out.append(dict(mu, status='not-applicable (syntax: %s)' % e)); continue
+        changed = {k for k, f in rm.funcs.items() if k not in repo.funcs or repo.funcs[k].sha256 != f.sha256}
+        items = []
+        for item in spec['functions']:
+            key = item if isinstance(item, str) else item[0]
+            inl = next((set(i.get('inlined', {})) for i in infos if i['function'] == key), set())
+            if key in changed or inl & changed: items.append(item)
+        if not items:
+            out.append(dict(mu, status='survived', reason='no function under contract for this property contains the edit')); continue
+        t0 = time.time()
+        vcs, _, und = generate(prop, dict(functions=items), rm, C, defs, classes, LEMMAS)
+        vcmod.discharge(vcs)
+        bad = [v for v in vcs if vcmod.status(v) != 'proved' and not (v.expect == 'sat' and v.result != 'unsat')]
+        st = 'killed' if (bad or und) else 'survived'
+        out.append(dict(mu, status=st, obligations=len(vcs), time_s=round(time.time() - t0, 1),
+                        failed=[v.name + ':' + vcmod.status(v) for v in bad[:4]] + ['function ' + u['function'] + ': ' + u['reason'][:80] for u in und[:2]]))
+    return out
+
+
 def modetag(v):
     if isinstance(v, dict): return ','.join('%s=%s' % kv for kv in sorted(v.items()))
     return str(v)
@@ -278,8 +309,11 @@ def main(argv):
             json.dump(rec, open(rp, 'w'), indent=1, default=str)
             violations = [x for x in violations if 'bounded-stand-in' not in x[2]] if wit else violations
             violations.append((rp, bool(wit), name)); reported.add(name)
+    mutants = None
+    if tier == 'thorough' and not violations and not refuted and not undec and not und:
+        mutants = run_mutants(prop, spec, repo, infos, C, defs, classes, LEMMAS)
     wall = time.time() - t0
-    write_evidence(prop, tier, seed, spec, vcs, infos, und, hres, backends, wall, len(violations))
+    write_evidence(prop, tier, seed, spec, vcs, infos, und, hres, backends, wall, len(violations), mutants=mutants)
     if os.environ.get('PYVC_WRITE_BASELINE') and not violations and not undec and not und and not refuted:
         os.makedirs(os.path.join(VERIF, 'baseline'), exist_ok=True)
         bl = {}
@@ -298,6 +332,13 @@ def main(argv):
         print('KNOWN-FINDING: property=%s %s (%s)' % (prop, kf.get('what', ''), name))
     for v in undec: print('UNDECIDED obligation %s: %s' % (v.name, v.model))
     for u in und: print('UNDECIDED function %s: %s' % (u['function'], u['reason']))
+    if mutants is not None:
+        killed = [x for x in mutants if x['status'] == 'killed']
+        surv = [x for x in mutants if x['status'] == 'survived' and not x['equivalent']]
+        print('selftest: %d catalogued edits, %d killed, %d documented-equivalent, %d not applicable, %d SURVIVED'
+              % (len(mutants), len(killed), sum(1 for x in mutants if x['equivalent']), sum(1 for x in mutants if x['status'].startswith('not-app')), len(surv)))
+        for x in surv: print('ERROR: seeded edit not detected (contracts too weak): %s: %r -> %r' % (x['module'], x['old'][:60], x['new'][:60]))
+        if surv: return 3
     if violations:
         for name in sorted({name for _, _, name in violations}):
             print('  failed obligation: ' + name)
@@ -314,7 +355,7 @@ def main(argv):
     return 0
 
 
-def write_evidence(prop, tier, seed, spec, vcs, infos, und, hres, backends, wall, nviol, note=None):
+def write_evidence(prop, tier, seed, spec, vcs, infos, und, hres, backends, wall, nviol, note=None, mutants=None):
     proved = [v for v in vcs if vcmod.status(v) == 'proved']
     all_proved = len(proved) == len(vcs) and not und and len(vcs) > 0
     level = spec.get('level', 'proof') if all_proved else 'other'
@@ -336,6 +377,10 @@ def write_evidence(prop, tier, seed, spec, vcs, infos, und, hres, backends, wall
                      if all_proved else 'not every obligation was discharged: see samples / functions_undecided') +
                     ('; ' + note if note else ''),
     )
+    if mutants is not None:
+        cov['seeded_edits'] = dict(total=len(mutants), killed=sum(1 for x in mutants if x['status'] == 'killed'),
+                                   results=[dict(module=x['module'], old=x['old'][:80], new=x['new'][:80], note=x['note'], status=x['status'],
+                                                 equivalent=x['equivalent'], failed=x.get('failed', []), time_s=x.get('time_s')) for x in mutants])
     if hres is not None:
         cov['bounded_standin'] = dict(label='bounded (never counted as proved)', bound=spec.get('bound', ''),
                                       evaluations=hres.get('evaluations', 0), distinct_nontrivial=hres.get('distinct', 0),
